@@ -401,11 +401,11 @@ def step (s : DS) (line : String) : DS × String :=
     match (arg? ws "fmt").bind fmtCode, (arg? ws "abc").bind abcCode, argNat? ws "B", arg? ws "call", argInt? ws "C", argInt? ws "W" with
     | some fmt, some abc, some B, some call, some C, some W =>
       -- format autodetection on a pipe works on the name without `.gz`; on standard input the name is `-` (no suffix)
-      let ext := if arg? ws "src" == some "stdin" then "-" else s.ext
+      let ext := if arg? ws "src" == some "stdin" || arg? ws "src" == some "pipe" then "-" else s.ext
       match openModel s.file ext fmt abc (if B == 0 then 1 else B) with
       | none => ({ s with a := none }, "unmodelled")
       | some (a, st) =>
-        let tag := if arg? ws "src" == some "stdin" then "scan-stdin " else "scan-gzip "
+        let tag := if arg? ws "src" == some "stdin" then "scan-stdin " else if arg? ws "src" == some "pipe" then "scan-pipe " else "scan-gzip "
         if st != .ok then ({ s with a := none }, tag ++ s!"open-{st.name}") else
         let fuel := 4 * s.file.size + 16
         ({ s with a := none }, tag ++ " ;; ".intercalate (scanAllLoop call C W fuel a (freshSq abc) []))
